@@ -145,18 +145,31 @@ impl Template {
     }
 }
 
-/// Recursive fn that finds all the includes to detect if there are some cycles
-pub(crate) fn check_include_cycles(tera: &Tera, start: &Template) -> Result<(), Error> {
+/// Recursive fn that finds all the includes to detect if there are some cycles.
+///
+/// Rendering a template also runs code of its ancestors (the body of the root template and any
+/// parent block reached through `super()`), so the includes of a template are its own plus
+/// those of all its parents: `tpl_parents` is the parents list of every template.
+pub(crate) fn check_include_cycles(
+    tera: &Tera,
+    tpl_parents: &HashMap<String, Vec<String>>,
+    start: &Template,
+) -> Result<(), Error> {
     let mut stack: Vec<String> = vec![start.name.clone()];
     let mut visited: HashSet<String> = HashSet::new();
     fn walk(
         tera: &Tera,
+        tpl_parents: &HashMap<String, Vec<String>>,
         current: &Template,
         stack: &mut Vec<String>,
         visited: &mut HashSet<String>,
     ) -> Result<(), Error> {
         let mut names: Vec<&String> = current.include_calls.keys().collect();
+        for parent in tpl_parents.get(&current.name).into_iter().flatten() {
+            names.extend(tera.templates[parent].include_calls.keys());
+        }
         names.sort();
+        names.dedup();
         for include_name in names {
             let Some(resolved) = tera.resolve_template_name(include_name) else {
                 continue;
@@ -170,13 +183,13 @@ pub(crate) fn check_include_cycles(tera: &Tera, start: &Template) -> Result<(), 
                 continue;
             }
             stack.push(resolved.to_string());
-            walk(tera, &tera.templates[resolved], stack, visited)?;
+            walk(tera, tpl_parents, &tera.templates[resolved], stack, visited)?;
             stack.pop();
             visited.insert(resolved.to_string());
         }
         Ok(())
     }
-    walk(tera, start, &mut stack, &mut visited)
+    walk(tera, tpl_parents, start, &mut stack, &mut visited)
 }
 
 /// Recursive fn that finds all the parents and put them in an ordered Vec from closest to first parent
